@@ -741,8 +741,30 @@ class Align:
             return Arr((("range", show(t, 80)), ()), q=("range",),
                        mono="INC", nonneg=True)
         if fname == NP + "linspace":
+            # ascending only when the end points are ordered by
+            # construction: (min(x), max(x)) or increasing constants
+            lo = args[0] if args else kwargs.get("start")
+            hi = args[1] if len(args) > 1 else kwargs.get("stop")
+            mono = None
+
+            def red(x):
+                c = x if x is None else (
+                    (x[1].replace(NP, ""), x[2]) if x[0] == "call" else
+                    (x[2], (x[1],) + tuple(x[3])) if x[0] == "mcall"
+                    else None)
+                return c
+
+            rl, rh = red(lo), red(hi)
+            if rl and rh and rl[0].split(".")[-1] == "min" and \
+                    rh[0].split(".")[-1] == "max" and rl[1][:1] == rh[1][:1]:
+                mono = "INC"
+            elif lo is not None and hi is not None and lo[0] == "const" \
+                    and hi[0] == "const" and isinstance(
+                        lo[1], (int, float)) and isinstance(
+                            hi[1], (int, float)) and lo[1] < hi[1]:
+                mono = "INC"
             return Arr((("grid", show(t, 100)), ()), q=("grid",),
-                       mono="INC")
+                       mono=mono)
         if fname == NP + "histogram":
             bins = kwargs.get("bins") or (args[1] if len(args) > 1 else None)
             gs = (("hist", show(bins, 80) if bins else "?"), ())
